@@ -500,11 +500,16 @@ def run(ctx):
     if not ok:
         ctx.violation("proof:C19", "proof obligations of C19 no longer check: " + " | ".join(problems)[:1500],
                       {"broken": problems, "theorems_file": "lean/Sqfs/Props/C19.lean"}, found_input=False)
+    if ok and not ctx.quick():
+        lc_ok, lc_out = ctx.leanchecker(MODULE)
+        ctx.cov["leanchecker"] = "ok" if lc_ok else lc_out[-300:]
+        if not lc_ok:
+            ctx.violation("proof:C19:leanchecker", "leanchecker rejects the compiled proofs of Sqfs.Props.C19: " + lc_out[-600:], {"leanchecker": lc_out}, found_input=False)
     harness, gen = build(ctx)
     comps = ["gzip", "xz"] if ctx.quick() else ["gzip", "xz", "lz4", "zstd", "lzma"]
     imgs, files = make_images(ctx, gen, comps)
     sizes = {"img": os.path.getsize(imgs["gzip"])}
-    per_kind = 14 if ctx.quick() else 120
+    per_kind = 14 if ctx.quick() else 480
     scs = []
     plan = []
     for c in COMPS:
@@ -586,7 +591,7 @@ def run(ctx):
             if stats["findings"][key] <= 2 or ctx.known_finding(key) is None and stats["findings"][key] <= 4:
                 ctx.violation(key, what, replay_dict(s, hr), found_input=found)
     # tables: exact answers
-    tscs = run_tables(ctx, harness, 30 if ctx.quick() else 400)
+    tscs = run_tables(ctx, harness, 30 if ctx.quick() else 1500)
     tres = run_harness(ctx, harness, tscs)
     tbad, ttotal = check_tables(ctx, harness, tscs, tres)
     for s, i, a, b in tbad[:3]:
